@@ -17,6 +17,7 @@ import time
 
 import cfdpmodel
 import common
+import dlevel
 import pipe
 import tlc
 
@@ -139,6 +140,21 @@ def collect(prop, tier, seed, c, only=None):
         common.log("%s %s: %d states, %d scripts, %d events, %d viol, %d drift" % (
             prop, name, m["states"], len(scripts), st["events"], len(mine), len(st["drift"])))
 
+    # ---- Level D: the same monitor and conformance check on executions of real Daemons
+    rp, dsc = d_scenarios(prop, tier, seed, os.path.join(c.work, "dplans"))
+    dres = dlevel.run(dsc, os.path.join(c.work, "d"), shards=14) if dsc else None
+    dscen_by_id = {s["id"]: s for s in dsc}
+    if dres:
+        for x in dres["viol"]:
+            if x["tag"].startswith(prop + ":"):
+                x["config"] = "level-d"
+                viols.append(x)
+        for d in dres["drift"]:
+            d["config"] = "level-d"
+        drifts += dres["drift"]
+        common.log("%s level D: %d scenarios, %d transactions, %d events, %d viol, %d drift" % (
+            prop, dres["scenarios"], dres["runs"], dres["events"], len([x for x in dres["viol"] if x["tag"].startswith(prop + ":")]), len(dres["drift"])))
+
     # ---- verdicts
     known = findings_for(prop)
     reported_known = set()
@@ -154,6 +170,12 @@ def collect(prop, tier, seed, c, only=None):
         if key in reported or len(c.violations) >= 5:
             continue
         reported.add(key)
+        if x["config"] == "level-d":
+            sid = x["id"].rsplit("-tx", 1)[0]
+            c.violation("%s at step %d of daemon run %s" % (x["tag"], x["line"], x["id"]),
+                        {"kind": "d-scenario", "property": prop, "tag": x["tag"], "line": x["line"], "scenario": dscen_by_id.get(sid),
+                         "trace": dlevel.trace_of(os.path.join(c.work, "d"), x["id"])})
+            continue
         script = all_scripts[x["id"]]
         trace = pipe.trace_of(os.path.join(c.work, "replay-" + x["config"]), x["id"])
         c.violation("%s at step %d of %s: %s" % (x["tag"], x["line"], x["id"], " ".join(fmt_step(s) for s in script["path"][:x["line"]])),
@@ -163,7 +185,7 @@ def collect(prop, tier, seed, c, only=None):
     cov = {
         "states": states,
         "transitions": trans,
-        "traces_validated_against_impl": nscripts,
+        "traces_validated_against_impl": nscripts + (dres["runs"] if dres else 0),
         "samples": samples,
         "events_validated": nevents,
         "configs": per_config,
@@ -171,6 +193,9 @@ def collect(prop, tier, seed, c, only=None):
         "drift_steps": len(drifts),
         "drift": drifts[:20],
         "property_tags": sorted(t for t in TAGS if t.startswith(prop + ":")),
+        "level_d": None if not dres else {"fault_plans_from_tlc": rp.distinct, "daemon_scenarios": dres["scenarios"], "transactions_validated": dres["runs"],
+                                          "events_validated": dres["events"], "daemon_events": dres["devents"], "drift_steps": len(dres["drift"]),
+                                          "sample": (dsc[len(dsc) // 2] if dsc else None)},
         "rule": "every maximal action path of the TLC state graph of each configuration (each edge of the bounded graph lies on one) replayed on the real "
                 "transaction objects; every recorded step judged by the Props.tla monitor and compared with the model's prediction (CfdpTrace.tla)",
     }
@@ -183,6 +208,63 @@ def collect(prop, tier, seed, c, only=None):
         common.log("MODEL-MISMATCH: the model violates a property in %s but no real execution does" % model_unknown)
         cov["model_mismatch"] = model_unknown
     return cov
+
+
+FSREQ = [{"a": "AppendFile", "f1": "f1", "f2": "f2"}, {"a": "CreateFile", "f1": "f1", "f2": ""}, {"a": "DeleteFile", "f1": "f2", "f2": ""}]
+PRE = {"f1": ["f", 3], "f2": ["f", 5]}
+
+
+def d_scenarios(prop, tier, seed, workdir):
+    """Level D scenario set of a property: real daemons under TLC-enumerated fault plans / command points"""
+    F = 1 if tier == "quick" else 2
+    r, plans = dlevel.fault_plans(workdir, F, blackouts=(prop in ("C03", "C10", "C17", "C18") or tier != "quick"))
+    noblack = [p for p in plans if p["cut"]["dir"] == "none"]
+    drops = [p for p in noblack if all(f["a"] == "drop" for f in p["faults"])][: (12 if tier == "quick" else 60)]
+    dups = [p for p in noblack if p["faults"] and all(f["a"] == "dup" for f in p["faults"])]
+    ack = ("ack", {}, "ack")
+    imm = ("imm", {"nakproc": "imm", "delay": 1}, "ack")
+    unack = ("unack", {}, "unack")
+    unackc = ("unackc", {"closure": True}, "unack")
+    lim3 = ("lim3", {"limit": 3}, "ack")
+    times = [0, 1, 2, 3, 5] if tier == "quick" else [0, 1, 2, 3, 4, 5, 7, 9]
+    sc = []
+    if prop in ("C01", "C02"):
+        sc += dlevel.family_plans(noblack, tier, [ack, imm, lim3] + ([unack, unackc] if prop == "C01" else []))
+    elif prop == "C03":
+        sc += dlevel.family_plans(plans, tier, [ack, unackc])
+    elif prop == "C04":
+        for i, p in enumerate(dups + drops[:6]):
+            sc.append(dlevel.single("c04-%d" % i, dlevel.dcfg(pre=PRE), "ack", p, fsreqs=FSREQ))
+    elif prop in ("C07", "C08"):
+        sc += dlevel.family_plans(noblack, tier, [("seg3", {"seg": 3}, "ack"), imm])
+        for s in sc:
+            s["puts"][0]["file"] = [1, 2, 0, 1, 1]
+    elif prop == "C10":
+        sc += dlevel.family_cmds(tier, [ack, unack, unackc], [("cancelS", [(1, "Cancel", 0)]), ("cancelR", [(2, "Cancel", 0)])], times, drops[:6])
+    elif prop == "C13":
+        for i, p in enumerate(noblack):
+            sc.append(dlevel.single("c13-%d" % i, dlevel.dcfg(pre=PRE), "ack", p, fsreqs=FSREQ))
+        sc.append(dlevel.single("c13-nofile", dlevel.dcfg(pre=PRE), "ack", dlevel.NOPLAN, fsreqs=FSREQ[:1], isfile=False, file=()))
+    elif prop == "C17":
+        hs = [("hdef", {}, "ack"), ("hign", {"handlers": {"PositiveLimitReached": "Ignore", "NakLimitReached": "Ignore", "InactivityDetected": "Ignore"}}, "ack"),
+              ("hsus", {"handlers": {"PositiveLimitReached": "Suspend", "NakLimitReached": "Suspend", "InactivityDetected": "Suspend"}}, "ack"),
+              ("habn", {"handlers": {"PositiveLimitReached": "Abandon", "NakLimitReached": "Abandon", "InactivityDetected": "Abandon"}}, "ack")]
+        cuts = [p for p in plans if p["cut"]["dir"] != "none" and not p["faults"]]
+        sc += dlevel.family_plans(cuts, tier, hs)
+        for s in sc:
+            if "hign" in s["id"] or "hsus" in s["id"]:
+                s["horizon"] = 40000
+    elif prop == "C18":
+        sc += dlevel.family_plans(plans if tier != "quick" else noblack, tier, [unack, unackc])
+    elif prop == "C19":
+        sets = [("suspS", [(1, "Suspend", 0), (1, "Resume", 1)]), ("suspS-long", [(1, "Suspend", 0), (1, "Resume", 15)]),
+                ("suspR", [(2, "Suspend", 0), (2, "Resume", 1)]), ("suspR-long", [(2, "Suspend", 0), (2, "Resume", 15)])]
+        sc += dlevel.family_cmds(tier, [ack, unackc], sets, times, drops[:4])
+    elif prop == "C20":
+        sets = [("ka", [(1, "PromptKeepAlive", 0)]), ("pnak", [(1, "PromptNak", 0)]), ("susp", [(1, "Suspend", 0), (1, "Resume", 2)]),
+                ("suspR", [(2, "Suspend", 0), (2, "Resume", 2)])]
+        sc += dlevel.family_cmds(tier, [ack, imm], sets, times, drops[:4])
+    return r, sc
 
 
 def fmt_step(s):
@@ -217,7 +299,11 @@ def replay(prop, path, seed):
     with open(path) as f:
         rp = json.load(f)
     work = os.path.join(common.WORK, prop + "-replay")
-    v, st = pipe.run_scripts([rp["script"]], work, shards=1)
+    if rp.get("kind") == "d-scenario":
+        res = dlevel.run([rp["scenario"]], work, shards=1)
+        v = res["viol"]
+    else:
+        v, st = pipe.run_scripts([rp["script"]], work, shards=1)
     known = findings_for(prop)
     bad = [x for x in v if x["tag"].startswith(prop + ":") and not any(x["sig"] and x["sig"] == f["signature"] for f in known)]
     if bad:
